@@ -8,8 +8,8 @@
    means what the model says); [serve r path]: what happens to a request with this raw path:
    [Handler S M] | [UnimplService S] (default arm of S's generated `call`) | [UnimplFallback];
    [method_path S M] = "/" ++ S ++ "/" ++ M. *)
-From Verif Require Import Lib.Bytes Lib.Obs.
-From Verif Require Import Gen.StatusTables Model.Router Proofs.Router.
+From Verif Require Import Lib.Bytes Lib.Obs Lib.HeaderMap.
+From Verif Require Import Gen.StatusTables Model.Status Model.Router Proofs.Router.
 From Coq Require Import Permutation String.
 Open Scope N_scope.
 
@@ -32,6 +32,35 @@ Theorem c10_route_total : forall r path,
   (exists S M, serve r path = Handler S M) \/
   (runs_handler (serve r path) = false /\ status_header (serve r path) = Some Code_Unimplemented).
 Proof. exact route_total. Qed.
+
+(* .. and that answer is a well-formed gRPC response (also C03): HTTP 200, content-type
+   application/grpc, exactly one grpc-status "12", no grpc-message, content-length absent or 0 (axum
+   writes it for the fallback's empty body), no body, no trailers; a
+   client reading the headers (Status::from_header_map) sees UNIMPLEMENTED.  Holds for both the
+   Routes fallback (Status::unimplemented("").into_http(), whose unwrap therefore cannot fire)
+   and the default arm of every generated `call`. *)
+Theorem c10_unimplemented_well_formed : forall r path, runs_handler (serve r path) = false ->
+  exists rp, reply_of (serve r path) = Reply rp /\
+    rp_status rp = 200 /\
+    hm_get_all (rp_headers rp) hdr_content_type = [val_application_grpc] /\
+    hm_get_all (rp_headers rp) hdr_grpc_status = [[49; 50]] /\
+    hm_get_all (rp_headers rp) hdr_grpc_message = [] /\
+    (hm_get_all (rp_headers rp) hdr_content_length = [] \/
+     hm_get_all (rp_headers rp) hdr_content_length = [[48]]) /\
+    rp_body rp = [] /\ rp_trailers rp = None /\
+    exists st, from_header_map (rp_headers rp) = Some st /\
+               st_code st = Code_Unimplemented /\ st_msg st = [] /\ st_details st = [].
+Proof. exact unimplemented_well_formed. Qed.
+
+Theorem c10_route_total_reply : forall r path,
+  (exists S M, serve r path = Handler S M) \/
+  (runs_handler (serve r path) = false /\
+   exists rp, reply_of (serve r path) = Reply rp /\ is_unimplemented_response rp).
+Proof. exact route_total_reply. Qed.
+
+Theorem c10_status_header_in_reply : forall o rp, reply_of o = Reply rp ->
+  exists c, status_header o = Some c /\ hm_get_all (rp_headers rp) hdr_grpc_status = [hv_of_i32 c].
+Proof. exact status_header_in_reply. Qed.
 
 (* any other path - whatever it looks like - is UNIMPLEMENTED and runs no handler *)
 Theorem c10_unimplemented_unless_exact : forall l r path, build l = Some r -> names_ok l ->
@@ -87,6 +116,13 @@ Proof. exact build_order_independent. Qed.
 (* registration succeeds exactly for distinct names none of which starts with ':' or '*' *)
 Theorem c10_build_spec : forall l r, build l = Some r <-> r = l /\ registrable l.
 Proof. exact build_spec. Qed.
+
+(* registration orders given as index lists (how the harness samples orders of 5..8 services):
+   any arrangement of 0..n-1 registers as well and answers alike *)
+Theorem c10_sampled_orders_agree : forall l r ix path, build l = Some r -> names_ok l ->
+  Permutation (map N.of_nat (seq 0 (List.length l))) ix ->
+  exists r', build (pick l ix) = Some r' /\ serve r' path = serve r path.
+Proof. exact sampled_orders_agree. Qed.
 
 (* the orders the harness enumerates are permutations *)
 Theorem c10_perms_sound : forall (l p : list service), In p (perms l) -> Permutation l p.
@@ -170,6 +206,7 @@ Example c10_perms_count : List.length (perms ex_reg) = 24%nat.
 Proof. reflexivity. Qed.
 
 Print Assumptions c10_route_iff.
+Print Assumptions c10_unimplemented_well_formed.
 Print Assumptions c10_unimplemented_unless_exact.
 Print Assumptions c10_route_order_independent.
 Print Assumptions c10_wrong_segment_count.
